@@ -24,9 +24,15 @@ def build(ctx, rule):
     def is_key_extraction(callee):
         return any(isinstance(r, ast.Return) and isinstance(r.value, ast.Tuple) and len(r.value.elts) >= 4 for r in ast.walk(callee.node))
 
-    from ..core import inline_bool_temps, inline_pure_temps, rotate_primed_loops
+    from ..core import desugar_ifexp, inline_bool_temps, inline_pure_temps, rotate_primed_loops, sink_into_branches, unroll_const_loops
 
-    for f in [inline_pure_temps(inline_bool_temps(rotate_primed_loops(_ti(repo, f0, keep=is_key_extraction)))) for f0 in mod.funcs.values()]:
+    def _nf(f0):
+        g = desugar_ifexp(_ti(repo, f0, keep=is_key_extraction))
+        if g is not f0 and any(isinstance(l, ast.For) and isinstance(l.iter, ast.Name) for l in walk_own(g.node)):
+            g = unroll_const_loops(sink_into_branches(g))  # `slots = (0, 1) if c else (1,); for s in slots: ...`
+        return inline_pure_temps(inline_bool_temps(rotate_primed_loops(g)))
+
+    for f in [_nf(f0) for f0 in mod.funcs.values()]:
         for n in walk_own(f.node):
             if isinstance(n, ast.Call) and isinstance(n.func, ast.Attribute) and n.func.attr == "sort" and any(k.arg == "key" for k in n.keywords):
                 m.f = f
@@ -70,6 +76,8 @@ def build(ctx, rule):
     if m.pass1 is None or m.pass2 is None:
         raise AnalysisError(rule, f.where(), "cannot find the read pass (append loop) and the write pass (loop over the sorted list)")
     m.rec = norm(m.pass2.target)
+    if any(isinstance(x, ast.Subscript) and isinstance(x.value, ast.Name) and x.value.id == m.rec for x in ast.walk(m.pass2)):
+        raise AnalysisError(rule, f.where(m.pass2), f"the write pass reads the fields of the record `{m.rec}` by position (`{m.rec}[...]`): which field is which is not traced")
     m.append = [c for c in ast.walk(m.pass1) if isinstance(c, ast.Call) and isinstance(c.func, ast.Attribute) and c.func.attr == "append" and norm(c.func.value) == m.list_var][0]
     m.ctor = m.append.args[0] if m.append.args and isinstance(m.append.args[0], ast.Call) else None
     m.ctor_kw = {k.arg: k.value for k in m.ctor.keywords} if m.ctor is not None else {}
@@ -155,6 +163,9 @@ def orientation_counts_rule(ctx, pa, rule):
                 d = [x for x in ld.get(c.args[0].id, []) if x is not None]
                 if d and isinstance(d[0], ast.Call) and norm(d[0].func).split(".")[-1] in ("Counter", "dict", "defaultdict"):
                     ctx.violated(rule, pa.where(c), f"the dominant orientation is chosen with `{norm(c)[:60]}`: on a tie between '>' and '<' the result is whichever orientation was seen first, so a tied alignment that starts reversed is anchored on its last node (ties must anchor on the first node)", key_of(pa, f"majority-by-max:{norm(c)[:50]}"))
+        ol_ = scaffold_orientation_list(pa)
+        if ol_ is not None and orientation_collection(pa, ol_) is not None:
+            return  # decisions are predicates over the collection itself (a set of orientations, first / last element): evaluated on every short list
         raise AnalysisError(rule, pa.where(), "no orientation counts in the key extraction")
     appended = {}
     for c in walk_own(pa.node):
@@ -242,6 +253,10 @@ def eval_list_test(expr, olist, L, defs, depth=0, env0=None):
                     return ev(e.func.value, env, d).index(ev(e.args[0], env, d))
                 except ValueError:
                     raise ListUnsupported("index of a missing element")
+            if norm(e.func) in ("Counter", "collections.Counter") and len(e.args) == 1 and not e.keywords:
+                import collections as _c
+
+                return _c.Counter(ev(e.args[0], env, d))
             if isinstance(e.func, ast.Name) and e.func.id == "range" and 1 <= len(e.args) <= 3:
                 return list(range(*[ev(x, env, d) for x in e.args]))
             if isinstance(e.func, ast.Name) and e.func.id == "zip" and e.args:
@@ -294,7 +309,18 @@ def scaffold_orientation_list(pa):
     and read by the decisions after it)"""
     cands = {}
     for c in walk_own(pa.node):
-        if isinstance(c, ast.Call) and isinstance(c.func, ast.Attribute) and c.func.attr == "append" and isinstance(c.func.value, ast.Name) and len(c.args) == 1 and isinstance(c.args[0], ast.Name):
+        if isinstance(c, ast.Call) and isinstance(c.func, ast.Attribute) and c.func.attr in ("append", "add") and isinstance(c.func.value, ast.Name) and len(c.args) == 1 and isinstance(c.args[0], ast.Name):
             cands.setdefault(c.func.value.id, []).append(c)
     names = [k for k in cands if "orient" in k or "dir" in k or "strand" in k] or list(cands)
     return names[0] if len(names) == 1 else None
+
+
+def orientation_collection(pa, name):
+    """constructor for the value the collection `name` holds after the node loop, given the list of scaffold orientations
+    in path order: the list itself (append) or the set of its elements (add)"""
+    kinds = {c.func.attr for c in walk_own(pa.node) if isinstance(c, ast.Call) and isinstance(c.func, ast.Attribute) and c.func.attr in ("append", "add") and isinstance(c.func.value, ast.Name) and c.func.value.id == name}
+    if kinds == {"add"}:
+        return set
+    if kinds == {"append"}:
+        return list
+    return None
